@@ -135,13 +135,13 @@ def scanUriEscapesGo (mark : Marker) : Nat → Nat → Nat → S Char
         else scanUriEscapesGo mark fuel (width - 1) code
       if width == 0 then
         if byte &&& 0x80 == 0 then step 1 byte
-        else if byte &&& 0xE0 == 0xC0 then step 2 byte
-        else if byte &&& 0xF0 == 0xE0 then step 3 byte
-        else if byte &&& 0xF8 == 0xF0 then step 4 byte
+        else if byte &&& 0xE0 == 0xC0 then step 2 (byte &&& 0x1F)
+        else if byte &&& 0xF0 == 0xE0 then step 3 (byte &&& 0x0F)
+        else if byte &&& 0xF8 == 0xF0 then step 4 (byte &&& 0x07)
         else err mark "while parsing a tag, found an incorrect leading UTF-8 byte"
       else if byte &&& 0xC0 != 0x80 then
         err mark "while parsing a tag, found an incorrect trailing UTF-8 byte"
-      else step width ((code <<< 8) + byte)
+      else step width ((code <<< 6) + (byte &&& 0x3F))
 
 def scanUriEscapes (mark : Marker) : S Char := scanUriEscapesGo mark 5 0 0
 
